@@ -83,18 +83,20 @@ func (m *model15) construct() {
 	}
 }
 
+// fails mirrors fx.shouldFail: the armed entries for name are visited in the order they were
+// armed; the first one whose countdown reaches zero makes this call fail (later ones are not
+// touched by this call).
 func (m *model15) fails(name string) bool {
-	hit := false
 	l := m.armed[name]
 	for i := range l {
 		if l[i] > 0 {
 			l[i]--
 			if l[i] == 0 {
-				hit = true
+				return true
 			}
 		}
 	}
-	return hit
+	return false
 }
 
 func castToString(v any) string {
